@@ -22,6 +22,7 @@ import (
 // operation run to quiescence before the next.  Case = the flattened operations:
 //
 //	"A" cmd | "H" cmd | "B" cmd     Add / AddHandler / AddBg; handler k = k-th registration
+//	"I" cmd bg                      internal registration (what registerBuiltins does), bg == "1"
 //	"T" cmd ret                     AddTmp(cmd, 0, f) where f returns ret ("1" = true)
 //	"D" cmd                         AddTmp(cmd, 1ms, f) and wait until the deadline has fired
 //	"R" mode arg                    Remove: mode 0 = cuid of handler arg, 1 = that cuid with
@@ -33,6 +34,7 @@ import (
 
 type c06Handler struct {
 	cmdUpper string
+	intl     bool // internal table: invisible to Remove / Clear / ClearAll / Count / Len
 	bg, tmp  bool
 	ret      bool
 	cuid     string
@@ -200,6 +202,24 @@ func runTableCase(c Case) Result {
 			h := add(op, cmd, false)
 			toks = append(toks, c06ShowCuid(h.cuid))
 			sig[op] = true
+		case "I":
+			cmd, ok1 := next()
+			b, ok2 := next()
+			if !ok1 || !ok2 {
+				toks = append(toks, "?args")
+				i = len(c)
+				break
+			}
+			k := len(hs)
+			h := &c06Handler{cmdUpper: strings.ToUpper(cmd), intl: true, bg: b == "1", live: true}
+			hs = append(hs, h)
+			if !c06CmdOK(cmd) {
+				outside = true
+				sig["outside"] = true
+			}
+			h.cuid = cl.Handlers.VerifRegisterInternal(h.bg, cmd, girc.HandlerFunc(func(_ *girc.Client, _ girc.Event) { rec.add(k) }))
+			toks = append(toks, c06ShowCuid(h.cuid))
+			sig["I"] = true
 		case "T":
 			cmd, ok1 := next()
 			rt, ok2 := next()
@@ -261,7 +281,7 @@ func runTableCase(c Case) Result {
 			got := cl.Handlers.Remove(target)
 			toks = append(toks, "r:"+B(got))
 			want := false
-			if hid >= 0 && target == exact && hs[hid].live {
+			if hid >= 0 && target == exact && hs[hid].live && !hs[hid].intl {
 				want = true
 				hs[hid].live = false
 			}
@@ -280,7 +300,7 @@ func runTableCase(c Case) Result {
 				outside = true
 			}
 			for _, h := range hs {
-				if h.cmdUpper == strings.ToUpper(cmd) {
+				if h.cmdUpper == strings.ToUpper(cmd) && !h.intl {
 					h.live = false
 				}
 			}
@@ -289,7 +309,9 @@ func runTableCase(c Case) Result {
 		case "X":
 			cl.Handlers.ClearAll()
 			for _, h := range hs {
-				h.live = false
+				if !h.intl {
+					h.live = false
+				}
 			}
 			toks = append(toks, "x")
 			sig["X"] = true
@@ -302,7 +324,7 @@ func runTableCase(c Case) Result {
 			got := cl.Handlers.Count(cmd)
 			want := 0
 			for _, h := range hs {
-				if h.live && h.cmdUpper == strings.ToUpper(cmd) {
+				if h.live && !h.intl && h.cmdUpper == strings.ToUpper(cmd) {
 					want++
 				}
 			}
@@ -315,7 +337,7 @@ func runTableCase(c Case) Result {
 			got := cl.Handlers.Len()
 			want := 0
 			for _, h := range hs {
-				if h.live {
+				if h.live && !h.intl {
 					want++
 				}
 			}
@@ -452,20 +474,23 @@ func genTableCase(r *rand.Rand) Case {
 		case k < 41:
 			c = append(c, "D", regCmd())
 			nreg++
-		case k < 52:
+		case k < 44:
+			c = append(c, "I", regCmd(), Pick(r, "0", "1"))
+			nreg++
+		case k < 54:
 			mode := Pick(r, "0", "0", "0", "0", "1", "2", "3")
 			arg := strconv.Itoa(r.Intn(nreg + 2))
 			if mode == "3" {
 				arg = Pick(r, c06Literals...)
 			}
 			c = append(c, "R", mode, arg)
-		case k < 56:
-			c = append(c, "C", regCmd())
 		case k < 58:
+			c = append(c, "C", regCmd())
+		case k < 60:
 			c = append(c, "X")
-		case k < 63:
+		case k < 65:
 			c = append(c, "N", regCmd())
-		case k < 66:
+		case k < 68:
 			c = append(c, "L")
 		default:
 			cmd := Pick(r, c06EvCmds...)
@@ -569,6 +594,7 @@ func init() {
 				{"A", "", "E", "", "0", "R", "0", "0", "N", ""},
 				{"A", "PRIVMSG", "A", "*", "B", "NOTICE", "B", "*", "E", "PRIVMSG", "1", "E", "NOTICE", "1", "E", "PRIVMSG", "0"},
 				{"R", "0", "5", "R", "0", "0", "C", "FOO", "X", "L", "N", "FOO", "E", "FOO", "0"},
+				{"I", "foo", "0", "I", "*", "1", "A", "FOO", "N", "FOO", "L", "R", "0", "0", "C", "FOO", "X", "E", "FOO", "0", "E", "FOO", "1", "L"},
 			}
 		},
 		Gen: genTableCase,
